@@ -28,6 +28,17 @@ ASSUMPTIONS = ['read faults on the old index are injected only as a probe, not j
 DIGITS = [1, 2, 4, 10, 11, 48, 100, 480, 4800]
 
 
+
+def _meta_truth(sp, specs):
+    """what the module text says about itself: its root is declared first, so the enterprise is the first seven arcs of
+    the root; a MODULE-IDENTITY (SMIv2 only) makes the root the identity"""
+    ro = mibgen.module_oid(sp, specs)
+    if ro is None:
+        return None
+    rd_ = mibgen.dotted(ro)
+    return {'enterprise': '.'.join(rd_.split('.')[:7]) if rd_.startswith('1.3.6.1.4.1.') else None,
+            'identity': rd_ if sp.get('identity') and not sp.get('smiv1') else None}
+
 def is_prefix(k, oid):
     return oid == k or oid.startswith(k + '.')
 
@@ -137,6 +148,13 @@ def generate(rng, tier):
         scn['corrupt_kind'] = rng.choice(['garbage', 'truncated', 'empty-object'])
     elif r < 0.40:
         scn['rate'] = {'p': 0.1, 'seed': rng.randrange(1 << 30), 'sites': ['open', 'file.read'], 'actions': ['errno']}
+    u = rng.random()
+    if u < 0.12 and not scn.get('persistent') and not any(b_.get('kind') == 'mibdump' for b_ in builds):
+        # the first build of the history finds an index left by earlier runs; in a few worlds a very large one
+        scn['inherited'] = {'pad': rng.choice([10500000, 17000000]) if u < 0.012 else rng.choice([0, 0, 100, 70000])}
+        if u < 0.012:
+            scn.pop('rate', None)
+            del builds[2:]
     return scn
 
 
@@ -177,11 +195,25 @@ def run(scn):
         digit_pat = False
         longlived = {}
         truths = {}         # build index -> {module: ground-truth OID set} (compile builds of generated modules)
+        truth_metas = {}    # build index -> {module: ground-truth enterprise / identity OID}
         corrupt_active = False
+        if scn.get('inherited'):
+            # an index document left by earlier runs (of any size: the 'meta' section carries padding in some worlds)
+            leg = {'compliance': {'1.3.6.1.4.1.424242.9.1': ['LEGACY-MIB']}, 'enterprise': {'1.3.6.1.4.1.424242': ['LEGACY-MIB']},
+                   'identity': {'1.3.6.1.4.1.424242.9': ['LEGACY-MIB']}, 'meta': {'comments': ['inherited'], 'pad': 'x' * int(scn['inherited'].get('pad', 0))},
+                   'oids': {'1.3.6.1.4.1.424242.9': ['LEGACY-MIB']}}
+            with core.unhooked():
+                with open(idxfile, 'w') as f:
+                    json.dump(leg, f)
+            prev_doc = leg
+            M['LEGACY-MIB'] = {'oids': set(['1.3.6.1.4.1.424242.9']), 'identity': set(['1.3.6.1.4.1.424242.9']), 'enterprise': set(['1.3.6.1.4.1.424242']),
+                               'compliance': set(['1.3.6.1.4.1.424242.9.1'])}
+            w.probe('inherited-index' + ('-over-10MB' if scn['inherited'].get('pad', 0) > 10000000 else ''))
         with w:
             for i, b in enumerate(scn['builds']):
                 w.begin_op(i, b['kind'])
                 truth = {}
+                truth_meta = {}
                 if scn.get('corrupt_before') == i:
                     with core.unhooked():
                         if os.path.exists(idxfile):
@@ -208,6 +240,7 @@ def run(scn):
                     src = scn['builds'][b['of']]
                     statuses = maps[b['of']]
                     truth = truths.get(b['of'], {})
+                    truth_meta = truth_metas.get(b['of'], {})
                 elif b['kind'] == 'direct':
                     statuses = to_statuses(b['map'])
                 elif b['kind'] == 'mibdump':
@@ -222,7 +255,10 @@ def run(scn):
                     for n, sp in specs.items():
                         if sp.get('variant', 'ok') == 'ok':
                             truth[n] = set(mibgen.dotted(o) for o in mibgen.defined_oids(sp, specs))
+                            if _meta_truth(sp, specs):
+                                truth_meta[n] = _meta_truth(sp, specs)
                     truths[i] = truth
+                    truth_metas[i] = truth_meta
                     try:
                         statuses = comp.compile(*b['requested'], **{'writeMibs': False, 'ignoreErrors': True})
                     except BaseException as e:  # noqa
@@ -250,7 +286,10 @@ def run(scn):
                         for n, sp in specs.items():
                             if sp.get('variant', 'ok') == 'ok':
                                 truth[n] = set(mibgen.dotted(o) for o in mibgen.defined_oids(sp, specs))
+                                if _meta_truth(sp, specs):
+                                    truth_meta[n] = _meta_truth(sp, specs)
                         truths[i] = truth
+                        truth_metas[i] = truth_meta
                         argv = ['--mib-source=file://' + srcd, '--mib-borrower=' + os.path.join(root, 'noborrow'), '--mib-searcher=nosuchpkg_sim',
                                 '--destination-directory=' + dst, '--destination-format=json', '--build-index', '--mib-stub=NONE-MIB'] + list(b.get('flags', [])) + list(b['requested'])
                         capt = c20._Capture()
@@ -340,6 +379,8 @@ def run(scn):
                             V('C18.3-only-own', 'compile() reports compliance OIDs %s for module %s which its text does not define' % (sorted(set(compl) - truth[m])[:3], m), what='status-foreign-compliance')
                     else:
                         e['oids'].update(oids)
+                    if m in truth and m in truth_meta:
+                        ident, ent = truth_meta[m]['identity'], truth_meta[m]['enterprise']
                     if ident:
                         e['identity'].add(ident)
                     if ent:
@@ -425,7 +466,7 @@ def shrink(scn):
         s = copy.deepcopy(scn)
         s.pop('persistent')
         yield s
-    for k in ('faults', 'rate', 'corrupt_before'):
+    for k in ('faults', 'rate', 'corrupt_before', 'inherited'):
         if k in scn:
             s = copy.deepcopy(scn)
             s.pop(k)
